@@ -3,7 +3,7 @@ use vkit::core::{install_panic_hook, replay_file, run_property, Ctx, Tier};
 use vkit::props;
 
 fn usage() -> ! {
-    eprintln!("usage: vcheck <Cxx> [--tier quick|thorough] [--only <subcheck>]\n       vcheck replay <file>\n       vcheck list");
+    eprintln!("usage: vcheck <Cxx> [--tier quick|thorough] [--only <subcheck>]\n       vcheck replay <file>\n       vcheck gen-corpus <target> <dir>\n       vcheck fuzz-replay <target> <file>\n       vcheck list");
     std::process::exit(2);
 }
 
@@ -34,9 +34,74 @@ fn main() {
             eprintln!("no isolated check {}/{}", args[1], args[2]);
             std::process::exit(2);
         }
+        "gen-corpus" => {
+            if args.len() < 3 {
+                usage();
+            }
+            match vkit::targets::write_corpus(&args[1], Path::new(&args[2])) {
+                Ok(n) => println!("{} seed inputs written to {}", n, args[2]),
+                Err(e) => {
+                    eprintln!("gen-corpus failed: {}", e);
+                    std::process::exit(2);
+                }
+            }
+        }
+        "fuzz-replay" => {
+            // vcheck fuzz-replay <target> <file>: re-runs one libFuzzer artifact through the target
+            if args.len() < 3 {
+                usage();
+            }
+            let data = match std::fs::read(&args[2]) {
+                Ok(d) => d,
+                Err(e) => {
+                    eprintln!("cannot read {}: {}", args[2], e);
+                    std::process::exit(2);
+                }
+            };
+            let prop = vkit::targets::TARGETS.iter().find(|t| t.0 == args[1]).map(|t| t.1).unwrap_or("?");
+            let name = args[1].clone();
+            match vkit::core::catch(move || vkit::targets::run_target(&name, &data)) {
+                Ok(true) => {
+                    println!("replay {}: target {} holds on this input", args[2], args[1]);
+                }
+                Ok(false) => {
+                    eprintln!("unknown target {}", args[1]);
+                    std::process::exit(2);
+                }
+                Err(p) => {
+                    println!("VIOLATION property={} replay={}", prop, args[2]);
+                    println!("  target={} {}", args[1], vkit::core::truncate(&p, 2000));
+                    std::process::exit(1);
+                }
+            }
+        }
         "replay" => {
             if args.len() < 2 {
                 usage();
+            }
+            if args[1].ends_with(".bin") {
+                // libFuzzer artifact saved as <prop>-<target>-<hash>.bin
+                let stem = Path::new(&args[1]).file_stem().and_then(|s| s.to_str()).unwrap_or("").to_string();
+                let target = vkit::targets::TARGETS.iter().map(|t| t.0).filter(|t| stem.contains(&format!("-{}-", t))).max_by_key(|t| t.len());
+                match target {
+                    Some(t) => {
+                        let exe = std::env::current_exe().expect("exe");
+                        let st = std::process::Command::new(exe).arg("fuzz-replay").arg(t).arg(&args[1]).status().expect("spawn");
+                        match st.code() {
+                            Some(c) => std::process::exit(c),
+                            None => {
+                                let prop = vkit::targets::TARGETS.iter().find(|x| x.0 == t).map(|x| x.1).unwrap_or("?");
+                                println!("VIOLATION property={} replay={}", prop, args[1]);
+                                println!("  target={} the replay process was killed by a signal ({:?})", t, st);
+                                std::process::exit(1);
+                            }
+                        }
+                    }
+                    None => {
+                        eprintln!("cannot tell the fuzz target from the file name {}", args[1]);
+                        std::process::exit(2);
+                    }
+                }
             }
             let code = replay_file(&props::all_specs(), Path::new(&args[1]));
             std::process::exit(code);
